@@ -165,9 +165,41 @@ func run(c *core.Ctx) int {
 	if rb := os.Getenv("VCHECK_RACE_BIN"); rb != "" {
 		handleW(wrcases, core.RunCases(c, "wasi", wrcases, core.ChildOpts{Bin: rb, Batch: 20, TimeoutS: 900, Procs: 4, Env: []string{"GORACE=halt_on_error=0 exitcode=0"}}), "conc")
 	}
+	// providers part: one compiled guest linked to different providers of its imported immutable globals
+	var pcases []json.RawMessage
+	for i := 0; i < c.N(1500, 30000); i++ {
+		pcases = append(pcases, core.J(gcase{Seed: rng.U64()}))
+	}
+	for _, r := range core.RunCases(c, "providers", pcases, core.ChildOpts{Batch: 100, TimeoutS: 600}) {
+		if r.Crash != nil {
+			if r.Crash.Kind == "timeout" {
+				c.Inconclusive("watchdog")
+			} else {
+				c.Violate("crash:providers:"+r.Crash.Kind+":"+core.Trunc(strings.Join(strings.Fields(r.Crash.Detail), "_"), 80), r.Crash.Detail, map[string]any{"case": pcases[r.Index], "crash": r.Crash})
+			}
+			continue
+		}
+		var pr provResult
+		if json.Unmarshal(r.Out, &pr) != nil {
+			c.Inconclusive("bad-child-output")
+			continue
+		}
+		evals++
+		c.Count("provider_groups", 1)
+		c.Count("provider_projections_compared", int64(pr.Compared))
+		c.Distinct("shapes", pr.Shape)
+		if pr.Sig != "" {
+			c.Violate(pr.Sig, pr.Detail, map[string]any{"case": pcases[r.Index]})
+		} else if pr.Compared > 0 {
+			c.Distinct("groups", fmt.Sprintf("prov-%d", r.Index))
+		}
+		if len(pr.Sample) > 0 && r.Index%700 == 0 {
+			c.Sample(map[string]any{"case": pcases[r.Index], "shape": pr.Shape, "provider_observation_instance0": pr.Sample})
+		}
+	}
 	c.Assume("the harness's own host functions keep per-instance state, so any coupling observed comes from wazero")
 	return c.Finish(evals, int64(c.DistinctN("groups")),
-		"(a) PRNG groups of 2-5 unlinked instances of a WASI guest, each with its own mounted directory, stdin and stdout/stderr buffers, running interleaved descriptor/stdio scripts (path_open, fd_close, fd_write, fd_read, fd_seek, fd_renumber, fd_fdstat_get, stdio); (b) PRNG groups of 2-5 unlinked instances (same compiled module / two different modules; one runtime / two runtimes sharing a CompilationCache; interpreter or compiler) running a PRNG-interleaved script of calls and host-side memory/global writes; each instance's trace (results, traps, host log, memory/global/table digests) must equal the trace of the projected script on a fresh lone instance; concurrent variant under -race; non-trivial = at least one projection compared")
+		"(c) one compiled guest whose data/element segment offsets and global initialisers come from imported immutable globals, instantiated 2-4 times against different provider modules registered under the same name, each instance compared (right after instantiation and after all others exist) with a lone instance of a fresh runtime linked to the same provider; (a) PRNG groups of 2-5 unlinked instances of a WASI guest, each with its own mounted directory, stdin and stdout/stderr buffers, running interleaved descriptor/stdio scripts (path_open, fd_close, fd_write, fd_read, fd_seek, fd_renumber, fd_fdstat_get, stdio); (b) PRNG groups of 2-5 unlinked instances (same compiled module / two different modules; one runtime / two runtimes sharing a CompilationCache; interpreter or compiler) running a PRNG-interleaved script of calls and host-side memory/global writes; each instance's trace (results, traps, host log, memory/global/table digests) must equal the trace of the projected script on a fresh lone instance; concurrent variant under -race; non-trivial = at least one projection compared")
 }
 
 // mutating ops of interest for the evidence
@@ -181,6 +213,9 @@ type mstep struct {
 func child(mode string, in json.RawMessage) any {
 	if mode == "wasi" {
 		return wasiChild(in)
+	}
+	if mode == "providers" {
+		return provChild(in)
 	}
 	var gc gcase
 	json.Unmarshal(in, &gc)
